@@ -41,6 +41,7 @@ type op struct {
 type dcase struct {
 	ID    string   `json:"id"`
 	Names []string `json:"names"`
+	Files []string `json:"files"` // per name: the file in the DAGs dir that the MONITOR says the name denotes (absent: <name>.yaml)
 	Texts []string `json:"texts"`
 	Ops   []op     `json:"ops"`
 }
@@ -49,7 +50,8 @@ type dump struct {
 	Err   string     `json:"err"`
 	Defs  []string   `json:"defs"`  // per name: "-" | "t<i>" | "tmpl" | "?<sha8>"
 	Hist  [][]string `json:"hist"`  // per name: payloads of recent(20), newest first
-	Stray []string   `json:"stray"` // files in the DAGs dir that are not <name>.yaml
+	Stray []string   `json:"stray"` // files in the DAGs dir that are not the file of any name
+	Dir   [][]string `json:"dir"`   // EVERY entry of the DAGs dir: [file name, tag of its bytes], sorted by name
 	List  int        `json:"list"`  // number of DAGs listed (-1 if not a list op)
 }
 
@@ -67,7 +69,24 @@ func runCase(c dcase, valid []bool) (res []dump, pan string) {
 	ds := dsclient.NewDataStores(dagsDir, filepath.Join(root, "data"), filepath.Join(root, "suspend"), dsclient.DataStoreOptions{})
 	cli := client.New(ds, "/bin/true", root, logger.NewLogger(logger.NewLoggerArgs{Quiet: true}))
 	tmplSeen := ""
-	loc := func(i int) string { return filepath.Join(dagsDir, c.Names[i]+".yaml") }
+	file := func(i int) string {
+		if i < len(c.Files) && c.Files[i] != "" {
+			return c.Files[i]
+		}
+		return c.Names[i] + ".yaml"
+	}
+	loc := func(i int) string { return filepath.Join(dagsDir, file(i)) }
+	tagOf := func(b []byte) string {
+		if tmplSeen != "" && string(b) == tmplSeen {
+			return "tmpl"
+		}
+		for k, t := range c.Texts {
+			if t == string(b) {
+				return fmt.Sprintf("t%d", k)
+			}
+		}
+		return "?" + sha8(b)
+	}
 	for _, o := range c.Ops {
 		var d dump
 		d.List = -1
@@ -111,17 +130,8 @@ func runCase(c dcase, valid []bool) (res []dump, pan string) {
 			switch {
 			case e != nil:
 				d.Defs = append(d.Defs, "-")
-			case tmplSeen != "" && string(b) == tmplSeen:
-				d.Defs = append(d.Defs, "tmpl")
 			default:
-				tag := "?" + sha8(b)
-				for k, t := range c.Texts {
-					if t == string(b) {
-						tag = fmt.Sprintf("t%d", k)
-						break
-					}
-				}
-				d.Defs = append(d.Defs, tag)
+				d.Defs = append(d.Defs, tagOf(b))
 			}
 			var ps []string
 			for _, sf := range ds.HistoryStore().ReadStatusRecent(loc(i), 20) {
@@ -131,16 +141,56 @@ func runCase(c dcase, valid []bool) (res []dump, pan string) {
 		}
 		ents, _ := os.ReadDir(dagsDir)
 		known := map[string]bool{}
-		for _, n := range c.Names {
-			known[n+".yaml"] = true
+		for i := range c.Names {
+			known[file(i)] = true
 		}
 		for _, e := range ents {
 			if !known[e.Name()] {
 				d.Stray = append(d.Stray, e.Name())
 			}
+			if b, re := os.ReadFile(filepath.Join(dagsDir, e.Name())); re == nil {
+				d.Dir = append(d.Dir, []string{e.Name(), tagOf(b)})
+			} else {
+				d.Dir = append(d.Dir, []string{e.Name(), "unreadable"})
+			}
 		}
 		sort.Strings(d.Stray)
+		sort.Slice(d.Dir, func(a, b int) bool { return d.Dir[a][0] < d.Dir[b][0] })
 		res = append(res, d)
+	}
+	return
+}
+
+// denotes observes, for every name of the case, which file of the DAGs directory the name DENOTES in the store
+// under test: in an empty directory the DAG is created under that name and the directory is listed (no use of the
+// store's own "does it exist" answer). "!" + reason when that does not yield exactly one file.
+var denCache = map[string]string{}
+
+func denotes(c dcase) (out []string) {
+	for _, n := range c.Names {
+		if r, ok := denCache[n]; ok {
+			out = append(out, r)
+			continue
+		}
+		out = append(out, func() (r string) {
+			defer func() { denCache[n] = r }()
+			defer func() {
+				if p := recover(); p != nil {
+					r = "!panic"
+				}
+			}()
+			dir, _ := os.MkdirTemp("", "verif-defs-n-")
+			defer os.RemoveAll(dir)
+			st := local.NewDAGStore(&local.NewDAGStoreArgs{Dir: dir})
+			if _, err := st.Create(n, []byte("steps:\n  - name: p\n    command: true\n")); err != nil {
+				return "!refused"
+			}
+			ents, _ := os.ReadDir(dir)
+			if len(ents) != 1 {
+				return fmt.Sprintf("!%d-files", len(ents))
+			}
+			return ents[0].Name()
+		}())
 	}
 	return
 }
@@ -180,7 +230,7 @@ func main() {
 				}()
 			}
 			res, p := runCase(c, valid)
-			b, _ := json.Marshal(map[string]any{"id": c.ID, "dumps": res, "panic": p, "valid": valid})
+			b, _ := json.Marshal(map[string]any{"id": c.ID, "dumps": res, "panic": p, "valid": valid, "denotes": denotes(c)})
 			out.Write(b)
 			out.WriteByte('\n')
 			out.Flush()
